@@ -41,6 +41,12 @@ def explorations(tier):
                    [{"n": 3, "edges": e, "output": [0, 1, 2], "W": 1, "sched": "random"} for e in planh.plan_configs(3)],
                    {"preempt": 0}))
         ex.append(("api hubs", PLAN, hub_cfgs([1, 2]), {"preempt": 1, "random": 2}))
+        # "finished executing SUCCESSFULLY": failing calls with an error budget that is not exhausted
+        from .c06 import api_fail_cfgs, engine_fail_cfgs
+        ex.append(("engine G3 x fault patterns x max_errors {1,None}, W=1..2, sync b<=1", ENGINE,
+                   list(engine_fail_cfgs([3], [1, 2], ["default", "random"], max_errors=(1, None))), {"preempt": 1, "random": 1}))
+        ex.append(("api plans n=3 x fault patterns x max_errors {1,None}, W=1", PLAN,
+                   list(api_fail_cfgs(3, [(1, "default")], kinds=("p", "k", "d", "l", "la"), max_errors=(1, None))), {"preempt": 0}))
     else:
         ex.append(("engine G3/G4 W=1 sync b<=2, all random draws", ENGINE, list(EC([3, 4], [1], scheds)), {"preempt": 2}))
         ex.append(("engine G3 W=2 sync b<=3", ENGINE, list(EC([3], [2], det)), {"preempt": 3}))
@@ -64,6 +70,11 @@ def explorations(tier):
                     for e in planh.plan_configs(4, kinds=("p", "d", "pd", "l"))],
                    {"preempt": 0}))
         ex.append(("api hubs", PLAN, hub_cfgs([1, 2, 3]), {"preempt": 2, "random": 2}))
+        from .c06 import api_fail_cfgs, engine_fail_cfgs
+        ex.append(("engine G3 x fault patterns x max_errors {1,2,None}, W=1..3, sync b<=2", ENGINE,
+                   list(engine_fail_cfgs([3], [1, 2, 3], ["default", "random"], max_errors=(1, 2, None))), {"preempt": 2, "random": 1}))
+        ex.append(("api plans n=3 x fault patterns x max_errors {1,None}, W=1..2", PLAN,
+                   list(api_fail_cfgs(3, [(1, "random"), (2, "default")], kinds=("p", "k", "d", "pd", "l", "la"), max_errors=(1, None))), {"preempt": 1}))
     return ex
 
 
